@@ -133,12 +133,13 @@ R13 = {
  "C18": "a frame of an unknown type is ignored by both HandleFrame functions",
 }
 R14 = {
+ "C04": "the result of a configured route expression is type-tested before it is used as a condition",
  "C01": "a multipart request body is not pre-parsed and re-written by the HTTP/1 server; the dubbothrift slow path keeps the received version byte",
  "C02": "unsolicited HTTP/1 upstream bytes are recognised by a flag raised exactly from request written to response read; a retry gets a stream object no other goroutine holds",
  "C07": "automatic protocol detection tries the matchers in registration order, never in map order",
  "C09": "a client that returns to a pool that was shut down is closed, not pooled; a reused stream slot must be tested unused",
  "C11": "an inherited socket is taken only by the listener or admin service configured for its address (port and IP), and only a TCP listener is parsed as one",
- "C12": "cluster and host updates of the cluster manager are serialised by one mutex held from before the read of the current state",
+ "C12": "cluster updates, host updates and cluster removals of the cluster manager are serialised by one mutex held from before the read of the current state",
  "C13": "xds: a downstream tls context without a usable certificate is refused, not served in plaintext; a tls context without server_name is not matched by name",
  "C14": "an upstream reset seen while a local reply is pending neither grants a retry nor replaces the reply",
  "C19": "directory-mode dumps give every cluster / virtual host its own file",
